@@ -21,6 +21,11 @@ pub enum Amf0DeserializationError {
     #[error("Hit end of the byte buffer but was expecting more data")]
     UnexpectedEof,
 
+    /// Objects and arrays were nested inside each other more deeply than the deserializer
+    /// allows.  Legitimate data only nests a few levels deep, so this is treated as malformed.
+    #[error("Objects and arrays are nested too deeply")]
+    NestingTooDeep,
+
     /// An I/O Error occurred while reading the data buffer
     #[error("Failed to read byte buffer: {0}")]
     BufferReadError(#[from] io::Error),
@@ -43,6 +48,11 @@ pub enum Amf0SerializationError {
     /// an object is encoded (and thus can't be read back as a property).
     #[error("Object property with an empty name")]
     EmptyObjectPropertyName,
+
+    /// Objects and arrays were nested inside each other more deeply than the deserializer
+    /// would be willing to read back.
+    #[error("Objects and arrays are nested too deeply")]
+    NestingTooDeep,
 
     /// An I/O error occurred while writing to the output buffer.
     #[error("Failed to write to byte buffer")]
